@@ -177,6 +177,78 @@ type tenv struct {
 	consts map[string]constant.Value
 	funcs  map[string]bool // translated kernels callable from others
 	err    string
+	// constant tables reachable as x[k] with a constant k: Go expression text of x -> (Coq list name, element type)
+	tables map[string]tableRef
+	// scalar fields of the receiver that become extra parameters: Go expression text -> type; used records the order of first use
+	fields map[string]ty
+	used   []string
+}
+
+type tableRef struct {
+	coq string
+	t   ty
+}
+
+// substIdent returns a copy of the statement / expression with every free occurrence of the identifier name replaced
+// by the integer literal val (used to unroll loops with a constant trip count).
+func substExpr(x ast.Expr, name string, val int64) ast.Expr {
+	switch v := x.(type) {
+	case nil:
+		return nil
+	case *ast.Ident:
+		if v.Name == name {
+			return &ast.BasicLit{Kind: token.INT, Value: fmt.Sprint(val)}
+		}
+		return v
+	case *ast.BasicLit:
+		return v
+	case *ast.ParenExpr:
+		return &ast.ParenExpr{X: substExpr(v.X, name, val)}
+	case *ast.UnaryExpr:
+		return &ast.UnaryExpr{Op: v.Op, X: substExpr(v.X, name, val)}
+	case *ast.BinaryExpr:
+		return &ast.BinaryExpr{X: substExpr(v.X, name, val), Op: v.Op, Y: substExpr(v.Y, name, val)}
+	case *ast.IndexExpr:
+		return &ast.IndexExpr{X: substExpr(v.X, name, val), Index: substExpr(v.Index, name, val)}
+	case *ast.SelectorExpr:
+		return &ast.SelectorExpr{X: substExpr(v.X, name, val), Sel: v.Sel}
+	case *ast.CallExpr:
+		args := []ast.Expr{}
+		for _, a := range v.Args {
+			args = append(args, substExpr(a, name, val))
+		}
+		return &ast.CallExpr{Fun: substExpr(v.Fun, name, val), Args: args}
+	}
+	return x
+}
+
+func substStmts(list []ast.Stmt, name string, val int64) []ast.Stmt {
+	out := []ast.Stmt{}
+	for _, st := range list {
+		switch v := st.(type) {
+		case *ast.ReturnStmt:
+			rs := []ast.Expr{}
+			for _, r := range v.Results {
+				rs = append(rs, substExpr(r, name, val))
+			}
+			out = append(out, &ast.ReturnStmt{Results: rs})
+		case *ast.AssignStmt:
+			ls, rs := []ast.Expr{}, []ast.Expr{}
+			for _, l := range v.Lhs {
+				ls = append(ls, substExpr(l, name, val))
+			}
+			for _, r := range v.Rhs {
+				rs = append(rs, substExpr(r, name, val))
+			}
+			out = append(out, &ast.AssignStmt{Lhs: ls, Tok: v.Tok, Rhs: rs})
+		case *ast.IfStmt:
+			n := &ast.IfStmt{Cond: substExpr(v.Cond, name, val), Body: &ast.BlockStmt{List: substStmts(v.Body.List, name, val)}, Init: v.Init, Else: v.Else}
+			out = append(out, n)
+		default:
+			out = append(out, st)
+		}
+	}
+	return out
 }
 
 var untyped = ty{name: "untyped"}
@@ -208,7 +280,36 @@ func (e *tenv) expr(x ast.Expr, want ty) (string, ty) {
 			return v.Name, widths["bool"]
 		}
 		return e.bad("unknown identifier %s", v.Name)
+	case *ast.IndexExpr:
+		if tb, ok := e.tables[exprString(v.X)]; ok {
+			if cv, ok := evalConst(v.Index, e.consts); ok {
+				if k, exact := constant.Int64Val(cv); exact && k >= 0 && k < 64 {
+					return fmt.Sprintf("(nth %d %s 0)", k, tb.coq), tb.t
+				}
+			}
+			return e.bad("table %s indexed by a non-constant", exprString(v.X))
+		}
+		return e.bad("index of %s", exprString(v.X))
+	case *ast.SelectorExpr:
+		name := exprString(v)
+		if t, ok := e.fields[name]; ok {
+			seen := false
+			for _, u := range e.used {
+				if u == name {
+					seen = true
+				}
+			}
+			if !seen {
+				e.used = append(e.used, name)
+			}
+			return "f_" + strings.ReplaceAll(name, ".", "_"), t
+		}
+		return e.bad("selector %s", name)
 	case *ast.CallExpr:
+		if exprString(v.Fun) == "bits.TrailingZeros" && len(v.Args) == 1 {
+			a, _ := e.expr(v.Args[0], widths["uint"])
+			return "(g_tz " + a + ")", widths["int"]
+		}
 		if id, ok := v.Fun.(*ast.Ident); ok && len(v.Args) == 1 {
 			if t, isT := widths[id.Name]; isT {
 				s, _ := e.expr(v.Args[0], untyped)
@@ -421,6 +522,37 @@ func (e *tenv) stmts(list []ast.Stmt, results []ty) string {
 			t = tx
 		}
 		return bind(vs.Names[0].Name, t, x)
+	case *ast.ForStmt:
+		// for i := a; i < b; i++ { ... } with constant a, b: unrolled
+		init, ok1 := v.Init.(*ast.AssignStmt)
+		cond, ok2 := v.Cond.(*ast.BinaryExpr)
+		post, ok3 := v.Post.(*ast.IncDecStmt)
+		if !ok1 || !ok2 || !ok3 || init.Tok != token.DEFINE || len(init.Lhs) != 1 || len(init.Rhs) != 1 || cond.Op != token.LSS || post.Tok != token.INC {
+			e.bad("for loop shape")
+			return "0"
+		}
+		iv, okv := init.Lhs[0].(*ast.Ident)
+		if !okv || exprString(cond.X) != iv.Name || exprString(post.X) != iv.Name {
+			e.bad("for loop variable")
+			return "0"
+		}
+		av, oka := evalConst(init.Rhs[0], e.consts)
+		bv, okb := evalConst(cond.Y, e.consts)
+		if !oka || !okb {
+			e.bad("for loop bounds are not constants")
+			return "0"
+		}
+		a, _ := constant.Int64Val(av)
+		b, _ := constant.Int64Val(bv)
+		if b-a > 64 {
+			e.bad("for loop too long to unroll")
+			return "0"
+		}
+		flat := []ast.Stmt{}
+		for k := a; k < b; k++ {
+			flat = append(flat, substStmts(v.Body.List, iv.Name, k)...)
+		}
+		return e.stmts(append(flat, rest...), results)
 	case *ast.IfStmt:
 		if v.Init != nil || v.Else != nil {
 			e.bad("if with init/else")
@@ -452,7 +584,11 @@ func typeOf(x ast.Expr) (ty, bool) {
 }
 
 func translateFunc(fd *ast.FuncDecl, consts map[string]constant.Value, funcs map[string]bool) (string, bool) {
-	env := &tenv{vars: map[string]ty{}, consts: consts, funcs: funcs}
+	return translateMethod(fd, consts, funcs, nil, nil)
+}
+
+func translateMethod(fd *ast.FuncDecl, consts map[string]constant.Value, funcs map[string]bool, tables map[string]tableRef, fields map[string]ty) (string, bool) {
+	env := &tenv{vars: map[string]ty{}, consts: consts, funcs: funcs, tables: tables, fields: fields}
 	params := []string{}
 	for _, f := range fd.Type.Params.List {
 		t, ok := typeOf(f.Type)
@@ -487,6 +623,11 @@ func translateFunc(fd *ast.FuncDecl, consts map[string]constant.Value, funcs map
 		fail(fd.Name.Name + ": " + env.err)
 		return "", false
 	}
+	fparams := []string{}
+	for _, u := range env.used {
+		fparams = append(fparams, "(f_"+strings.ReplaceAll(u, ".", "_")+" : Z)")
+	}
+	params = append(fparams, params...)
 	return fmt.Sprintf("Definition g_%s %s :=\n  %s.\n", fd.Name.Name, strings.Join(params, " "), body), true
 }
 
@@ -600,9 +741,10 @@ func main() {
 		rep.Consts = append(rep.Consts, name)
 	}
 	var kb strings.Builder
-	kb.WriteString("(* GENERATED by /verif/go/goscrape from /repo — do not edit. *)\nFrom Coq Require Import ZArith List Bool.\nImport ListNotations.\nOpen Scope Z_scope.\nOpen Scope bool_scope.\n\n" +
+	kb.WriteString("(* GENERATED by /verif/go/goscrape from /repo — do not edit. *)\nFrom Coq Require Import ZArith List Bool.\nFrom Verif Require Import Gen.Consts.\nImport ListNotations.\nOpen Scope Z_scope.\nOpen Scope bool_scope.\n\n" +
 		"Definition wrapU (bits : Z) (x : Z) : Z := x mod 2 ^ bits.\n" +
-		"Definition wrapS (bits : Z) (x : Z) : Z := (x + 2 ^ (bits - 1)) mod 2 ^ bits - 2 ^ (bits - 1).\n\n")
+		"Definition wrapS (bits : Z) (x : Z) : Z := (x + 2 ^ (bits - 1)) mod 2 ^ bits - 2 ^ (bits - 1).\n" +
+		"(* math/bits.TrailingZeros of a uint *)\nDefinition g_tz (x : Z) : Z := if x =? 0 then 64 else Z.log2 (Z.land x (- x)).\n\n")
 	funcs := map[string]bool{}
 	all := map[string]*ast.File{}
 	for k, v := range internal {
@@ -640,12 +782,33 @@ func main() {
 			if ok && ok2 && (id.Name == "buckets" || id.Name == "spans") {
 				emitList("wheel_"+id.Name, cl.Elts, env)
 			}
+			if ok && ok2 && id.Name == "shift" {
+				env.tables = map[string]tableRef{"spans": {"c_wheel_spans", widths["uint"]}}
+				emitList("wheel_shift", cl.Elts, env)
+			}
 			return true
 		})
 	} else {
 		fail("NewTimerWheel not found")
 	}
 	wheelInKernels := strings.Contains(cb.String(), "g_next2Power")
+	// TimerWheel.findIndex: the loop over the five wheels unrolled, the receiver's constant tables looked up, tw.nanos a parameter
+	var findIndexV string
+	if fd := findFunc(internal, "findIndex"); fd != nil && fd.Recv != nil && len(fd.Recv.List) == 1 && len(fd.Recv.List[0].Names) == 1 {
+		rv := fd.Recv.List[0].Names[0].Name
+		tables := map[string]tableRef{
+			rv + ".spans":   {"c_wheel_spans", widths["uint"]},
+			rv + ".shift":   {"c_wheel_shift", widths["uint"]},
+			rv + ".buckets": {"c_wheel_buckets", widths["uint"]},
+		}
+		fields := map[string]ty{rv + ".nanos": widths["int64"]}
+		if sfi, ok := translateMethod(fd, consts, funcs, tables, fields); ok {
+			findIndexV = sfi
+			rep.Kernels = append(rep.Kernels, "findIndex")
+		}
+	} else {
+		fail("TimerWheel.findIndex not found")
+	}
 
 	// read-path window (expire-nowCached < W) in getFromShard
 	if fd := findFunc(internal, "getFromShard"); fd != nil {
@@ -1107,12 +1270,17 @@ func main() {
 	consV := cb.String()
 	if wheelInKernels {
 		// the spans table calls g_next2Power: put it after the kernels
-		idx := strings.Index(consV, "Definition c_wheel_spans")
-		if idx >= 0 {
-			end := strings.Index(consV[idx:], "\n") + idx + 1
-			kb.WriteString(consV[idx:end])
-			consV = consV[:idx] + consV[end:]
+		for _, nm := range []string{"Definition c_wheel_spans", "Definition c_wheel_shift"} {
+			idx := strings.Index(consV, nm)
+			if idx >= 0 {
+				end := strings.Index(consV[idx:], "\n") + idx + 1
+				kb.WriteString(consV[idx:end])
+				consV = consV[:idx] + consV[end:]
+			}
 		}
+	}
+	if findIndexV != "" {
+		kb.WriteString("\n" + findIndexV)
 	}
 	os.MkdirAll(*out, 0o755)
 	os.WriteFile(filepath.Join(*out, "Consts.v"), []byte(consV), 0o644)
